@@ -11,7 +11,9 @@ ASSUME = ["OpenMLS and NIP-44 are symbolic in the model (assumptions A1-A8 of DE
           "the hand-written client model (Model.Client) is validated by correspondence on this run's histories only",
           "wrapper timestamps are fixed by the schedule through the verif-hooks created_at override; event ids, authenticators and rumor ids are observed and mapped to small numbers by first occurrence"]
 
-def run(prop, tier, seed, t0, H):
+def run(prop, tier, seed, t0, H, second=None):
+    """`second(prop, tier, seed, H, ob, facts, built)` → dict(failures, coverage, assumptions, trusted, checker): a second engine of the
+    same property (C06 / C08: the `wrap` engine), merged into the one verdict and the one evidence file"""
     module = MODULES[prop]
     ob, facts, axioms, built = H.prelude(prop, module, tier)
     failures, coverage = [], {}
@@ -79,4 +81,20 @@ def run(prop, tier, seed, t0, H):
         coverage = {"evaluations": 1, "distinct_nontrivial": 0, "rule": rule, "samples": ["build failed"]}
     coverage["axioms_used"] = H.axiom_summary(axioms)
     checker = f"cd lean && lake build {module} mdkdrv && lake env lean .lake/audit/{prop}_axioms.lean; ./check {prop} --tier {tier}"
-    return C.finish(prop, tier, seed, t0, ob, failures, coverage, ASSUME, checker, H.TRUSTED + [f"axioms actually used: {H.axiom_summary(axioms)}"])
+    assume, trusted = list(ASSUME), H.TRUSTED + [f"axioms actually used: {H.axiom_summary(axioms)}"]
+    if second is not None:
+        x = second(prop, tier, seed, H, ob, facts, built)
+        failures += x["failures"]
+        assume += x["assumptions"]; trusted += x["trusted"]
+        coverage[x["name"]] = x["coverage"]
+        if "evaluations" in coverage and "evaluations" in x["coverage"]:
+            coverage["evaluations"] += x["coverage"]["evaluations"]
+            coverage["distinct_nontrivial"] += x["coverage"]["distinct_nontrivial"]
+            coverage["traces_validated_against_impl"] = coverage.get("traces_validated_against_impl", 0) + x["coverage"]["evaluations"]
+            coverage["steps_compared"] = coverage.get("steps_compared", 0) + x["coverage"].get("steps_compared", 0)
+            coverage["correspondence_disagreements"] = coverage.get("correspondence_disagreements", 0) + x["coverage"].get("correspondence_disagreements", 0)
+            coverage["oracle_failures"] = coverage.get("oracle_failures", 0) + x["coverage"].get("oracle_failures", 0)
+            coverage["rule"] = coverage["rule"] + "  ||  second engine `" + x["name"] + "`: " + x["coverage"]["rule"]
+            coverage["samples"] = coverage.get("samples", []) + x["coverage"].get("samples", [])
+        checker += x.get("checker", "")
+    return C.finish(prop, tier, seed, t0, ob, failures, coverage, assume, checker, trusted)
